@@ -76,6 +76,12 @@ P = {
 }
 
 
+E2E = {
+ 'C07': 'app_go_bestmove_legal — from the stdin TEXT `position fen <b> [moves …]` + ANY parsing go line to the stdout TEXT `bestmove <uci of a move legal by the rules Spec>` of the process model (never 0000, inside searchmoves).',
+ 'C08': 'app_go_depth_reports_minimax — the script [position fen b, go depth d], d<=3, makes the process model print an info line whose score is the rendered exact minimax value and a bestmove that is optimal.',
+ 'C16': 'app_position_fen_sets_board, app_position_moves, app_go_depth_reports_minimax, app_go_bestmove_legal — the text-to-text behaviour of the process model.',
+}
+
 TRANSLATED = {
  'C07': 'Search::calculate_max_thinking_time with its two getters (rs_calculate_max_thinking_time_eq)',
  'C08': 'KillerTable::get/put, the MvvLva sort key, Heuristic::is_checkmate and the terminal branches of evaluate (rs_killer_get_eq, rs_killer_put_eq, rs_sort_key_eq, rs_is_checkmate_eq, rs_evaluate_eq)',
@@ -96,6 +102,8 @@ def main():
         if pid not in claimed:
             continue
         text, note, tech, ref = P[pid]
+        if pid in E2E:
+            text += ' End to end (Props/EndToEnd): ' + E2E[pid]
         if pid in TRANSLATED:
             text += ' Translated on every run from the current Rust source (rs2lean) and proved equal to the model function the theorems use: ' + TRANSLATED[pid] + '.'
             tech += ' + Rust-to-Lean translation of the named functions with proved equivalence to the model'
